@@ -56,6 +56,12 @@ class AEnv:
         except BaseException:
             if op.state == "pending":
                 op.state = "cancelled"
+            elif op.kind == "read" and op.state == "ok" and isinstance(op.result, (bytes, bytearray)) and op.result:
+                # completed but never seen by the caller (cancelled in the same iteration): anyio and trio keep the
+                # bytes in the protocol's queue / the socket buffer, so they are NOT lost: give them back
+                op.tr.inbound[0:0] = op.result
+                op.tr.read_total -= len(op.result)
+                op.state = "ok-but-cancelled(bytes kept)"
             elif op.kind.startswith("connect") and op.tr is not None and not op.tr.closed:
                 # completed but never seen by the caller (cancelled in between): real backends
                 # close the half-delivered socket themselves
